@@ -236,3 +236,45 @@ def c19_bounded(pid, name, repo, unsupported):
 
 SPECIAL.append(c19_special)
 SPECIAL_BOUNDED.append(c19_bounded)
+
+
+def update_special(pid, key, items, repo):
+    """Failed obligations of the in-memory update: replay by out-of-band rewrites and retained handles."""
+    names = [n for n, _ in items]
+    if not any("_update" in n for n in names):
+        return None
+    m = re.search(r"def:(\w+)\._update", names[0]) or re.search(r"/(\w+)\._update", names[0])
+    cname = m.group(1) if m else "JSONDict"
+    env = dict(os.environ, PYTHONPATH=repo)
+    tried = []
+    for cn in (cname, "JSONDict", "JSONList"):
+        if cn in tried:
+            continue
+        tried.append(cn)
+        try:
+            r = subprocess.run([VENV_PY, os.path.join(HERE, "update_replay.py"), "search", cn], env=env,
+                               capture_output=True, text=True, timeout=600)
+            res = json.loads(r.stdout.strip().splitlines()[-1])
+        except Exception as e:      # noqa: BLE001
+            return {"search": {"error": f"{type(e).__name__}: {e}"}}
+        if res.get("found"):
+            return {"search": {k: v for k, v in res.items() if k != "scenario"}, "replayer": "replay/update_replay.py",
+                    "scenario": res["scenario"], "message": res["message"], "confirmed_on_real_code": True,
+                    "script": "replay/update_replay.py", "script_args": ["run", "{self}"]}
+    return {"search": {"found": False, "classes": tried}, "replayer": "replay/update_replay.py"}
+
+
+SPECIAL.insert(0, update_special)
+
+
+def bounded_special(pid, key, items, repo):
+    """A bounded sweep that found a failing run: the scenario is already concrete."""
+    for n, rec in items:
+        if "/bounded:" in n and rec.get("info", {}).get("scenario") is not None:
+            i = rec["info"]
+            return {"scenario": i["scenario"], "message": i.get("message"), "confirmed_on_real_code": True,
+                    "found_by": "bounded stand-in", "script": i["script"], "script_args": ["run", "{self}"]}
+    return None
+
+
+SPECIAL.insert(0, bounded_special)
